@@ -65,14 +65,19 @@ static void do_sleep(long i) {
     struct timespec bad; static const long bn[] = { -1, 1000000000L, 2000000000L, -999999999L };
     bad.tv_sec = (h >> 8) % 2; bad.tv_nsec = bn[(h >> 12) % 4];
     if ((h >> 20) % 3 == 0) { bad.tv_sec = -1 - (long)((h >> 24) % 5); bad.tv_nsec = (h >> 30) % 2 ? 0 : 999999999L; }
-    int rc = myth_nanosleep(&bad, 0);
-    MVH_CHECK(rc == EINVAL, "C20-EINVAL", "myth_nanosleep({%ld,%ld}) returned %d instead of EINVAL", (long)bad.tv_sec, bad.tv_nsec, rc);
+    /* the remainder argument: absent, a separate object, or the request object itself (the retry idiom
+       nanosleep(&ts, &ts); the prototype has no restrict) */
+    struct timespec rem0 = { 77, 77 }, bad0 = bad;
+    int remk = (int)((h >> 40) % 3);
+    int rc = myth_nanosleep(&bad, remk == 0 ? 0 : remk == 1 ? &rem0 : &bad);
+    MVH_CHECK(rc == EINVAL, "C20-EINVAL", "myth_nanosleep({%ld,%ld}%s) returned %d instead of EINVAL", (long)bad0.tv_sec, bad0.tv_nsec, remk == 2 ? ", remainder = the request object" : "", rc);
     return;
   }
   if (api == 0) {
-    struct timespec rq = { (time_t)(d / NS), (long)(d % NS) };
-    int rc = myth_nanosleep(&rq, 0);
-    MVH_CHECK(rc == 0, "C20-RC", "myth_nanosleep({%ld,%ld}) returned %d", (long)rq.tv_sec, rq.tv_nsec, rc);
+    struct timespec rq = { (time_t)(d / NS), (long)(d % NS) }, rem0 = { 77, 77 };
+    int remk = (int)((h >> 40) % 3);
+    int rc = myth_nanosleep(&rq, remk == 0 ? 0 : remk == 1 ? &rem0 : &rq);
+    MVH_CHECK(rc == 0, "C20-RC", "myth_nanosleep({%ld,%ld}) returned %d", (long)(d / NS), (long)(d % NS), rc);
   } else if (api == 1) {
     uint64_t us = d / 1000; if (us > 4000000000ULL) us = 4000000000ULL; d = us * 1000;
     int rc = myth_usleep((useconds_t)us);
